@@ -16,6 +16,10 @@ from c10 import build_binary
 HTML = [b"<script>alert(1)</script>", b"</pre></code><h1>x</h1>", b"<", b">", b"<<>>", b"<img src=x onerror=y>", b"a<b>c"]
 
 
+class NoUpstream(Exception):
+    pass
+
+
 def free_port():
     s = socket.socket()
     s.bind(("127.0.0.1", 0))
@@ -94,12 +98,16 @@ def session(ctx, binary, n, rng, kind, cert=None):
        quiet      the proxy is started with -q (message log off)
        loglevel0  the message log is turned off through /status/loglevel/0 before the traffic starts
        slowserver the upstream server reads nothing for 2 s while the client sends 600 kB
-       reportrace three threads reload /status/report all the time while 400 kB of short messages flow"""
+       reportrace three threads reload /status/report all the time while 400 kB of short messages flow
+       cmdline    hosts and ports given on the command line, different ones in the configuration file (the command line wins)"""
     d = ctx.path("sess%d" % n)
     os.makedirs(d)
     tls = kind.startswith("tls")
     closing = kind.endswith("close")
     skind = kind
+    cmdline = kind == "cmdline"
+    if cmdline:
+        kind = rng.choice(["valid", "mixed"])
     if tls or closing or kind in ("second", "quiet", "loglevel0"):
         kind = rng.choice(["valid", "mixed", "many"]) if kind in ("quiet", "loglevel0") else rng.choice(["valid", "mixed", "html"])
     up = socket.socket()
@@ -109,15 +117,22 @@ def session(ctx, binary, n, rng, kind, cert=None):
     up_port = up.getsockname()[1]
     pport, cport = free_port(), free_port()
     cfg = os.path.join(d, "proxy.json")
+    extra = []
+    conf = {"remote_host": "127.0.0.1:%d" % up_port, "proxy_host": "127.0.0.1", "proxy_port": pport,
+            "control_host": "127.0.0.1", "control_port": cport, "record_messages": True,
+            "message_log_directory": os.path.join(d, "msglog"),
+            "tls": {"country": ["GB"], "org": ["verif"], "common_name": "localhost"}}
+    if cmdline:
+        # the file names other hosts and ports; the command line says where to listen and where the server is, and wins
+        conf.update(remote_host="127.0.0.1:1", proxy_host="127.0.0.9", proxy_port=free_port(), control_port=free_port())
+        extra = ["-r", "127.0.0.1:%d" % up_port, "-l", "127.0.0.1", "-p", str(pport), "-ca", "127.0.0.1", "-cp", str(cport)]
     with open(cfg, "w") as f:
-        json.dump({"remote_host": "127.0.0.1:%d" % up_port, "proxy_host": "127.0.0.1", "proxy_port": pport,
-                   "control_host": "127.0.0.1", "control_port": cport, "record_messages": True,
-                   "message_log_directory": os.path.join(d, "msglog"),
-                   "tls": {"country": ["GB"], "org": ["verif"], "common_name": "localhost"}}, f)
+        json.dump(conf, f)
     errf = open(os.path.join(d, "stderr"), "wb")
     outf = open(os.path.join(d, "stdout"), "wb")
-    p = subprocess.Popen([binary] + (["-s"] if tls else []) + (["-q"] if skind == "quiet" else []) + ["-c", cfg], cwd=d, stdout=outf, stderr=errf)
-    ev = dict(kind=skind, alive=True, stalled=False, report_ok=False, report_msgs=[], slot_client=[], slot_server=[], slot_messages=[])
+    p = subprocess.Popen([binary] + (["-s"] if tls else []) + (["-q"] if skind == "quiet" else []) + ["-c", cfg] + extra, cwd=d, stdout=outf, stderr=errf)
+    ev = dict(kind="cmdline" if cmdline else skind, alive=True, stalled=False, report_ok=False, report_msgs=[], slot_client=[], slot_server=[], slot_messages=[],
+              dump_client=[], dump_server=[])
     c2s = client_stream(rng, kind)
     s2c = b"ICY 200 OK\r\n\r\n" + bytes(rng.getrandbits(8) for _ in range(rng.randint(0, 300))) + rng.choice(HTML) if kind != "random" else bytes(rng.getrandbits(8) for _ in range(rng.randint(1, 3000)))
     ev["c2s"], ev["s2c"] = list(c2s), list(s2c)
@@ -142,7 +157,14 @@ def session(ctx, binary, n, rng, kind, cert=None):
             except Exception as e:          # noqa
                 ev["loglevel_error"] = repr(e)[:100]
         up.settimeout(10)
-        srv, _ = up.accept()
+        try:
+            srv, _ = up.accept()
+        except socket.timeout:
+            # the proxy never called the upstream server: nothing can be relayed (or the proxy has died trying)
+            ev["stalled"] = True
+            ev["alive"] = p.poll() is None
+            ev["s_got"], ev["c_got"] = [], []
+            raise NoUpstream()
         if tls:
             # the proxy dials the upstream server with TLS as soon as it has accepted the client, and only then
             # reads from (i.e. shakes hands with) the client: serve that handshake first, then do the client's
@@ -315,6 +337,8 @@ def session(ctx, binary, n, rng, kind, cert=None):
             except Exception as e:          # noqa
                 ev["report_error"] = repr(e)[:200]
             ev["alive"] = p.poll() is None
+    except NoUpstream:
+        pass
     finally:
         for s in (cli, up):
             try:
@@ -355,6 +379,14 @@ def parse_report(page, ev):
         ev["report_ok"] = False
         ev["report_error"] = "report layout not recognised"
         return
+    def dump_bytes(section):
+        out = []
+        for ln in section.split("\n"):
+            h = re.match(r"^[0-9a-f]{8}  ((?:[0-9a-f]{2} ?| )+)", ln)
+            if h:
+                out.extend(int(x, 16) for x in h.group(1).split())
+        return out
+    ev["dump_client"], ev["dump_server"] = dump_bytes(cb), dump_bytes(sb)
     msgs = []
     cur = None
     for ln in mb.split("\n"):
@@ -390,7 +422,7 @@ def session_concurrent(ctx, binary, n, rng):
     p = subprocess.Popen([binary, "-c", cfg], cwd=d, stdout=outf, stderr=errf)
     conns = []
     note = dict(reported=0, spliced=0)
-    page_ev = dict(report_ok=False, report_msgs=[], slot_client=[], slot_server=[], slot_messages=[])
+    page_ev = dict(report_ok=False, report_msgs=[], slot_client=[], slot_server=[], slot_messages=[], dump_client=[], dump_server=[])
     try:
         up.settimeout(10)
         for k in range(2):
@@ -500,7 +532,7 @@ def session_concurrent(ctx, binary, n, rng):
             note["spliced"] += 1
     evs = []
     for c in conns:
-        ev = dict(kind="concurrent", alive=alive, stalled=stalled, report_ok=page_ev["report_ok"], report_msgs=[],
+        ev = dict(kind="concurrent", alive=alive, stalled=stalled, report_ok=page_ev["report_ok"], report_msgs=[], dump_client=[], dump_server=[],
                   slot_client=page_ev["slot_client"], slot_server=page_ev["slot_server"], slot_messages=page_ev["slot_messages"],
                   c2s=list(c["c2s"]), s2c=list(c["s2c"]), s_got=list(c["s_got"]), c_got=list(c["c_got"]), multi=True)
         if not alive:
@@ -526,8 +558,8 @@ def run(ctx, replay):
     binary = build_binary(ctx, "proxy")
     rng = random.Random(ctx.seed * 104729 + 19)
     kinds = ["valid", "malformed", "html", "random", "mixed", "many", "bulk", "burst", "bigburst", "bulk", "mixed", "html", "burst",
-             "close", "tls12close", "tls13", "tls12close", "close", "second", "quiet", "loglevel0", "slowserver", "reportrace"]
-    nsess = 115 if ctx.thorough() else 23
+             "close", "tls12close", "tls13", "tls12close", "close", "second", "quiet", "loglevel0", "slowserver", "reportrace", "cmdline"]
+    nsess = 120 if ctx.thorough() else 24
     cert = ctx.path("upstream")
     ctx.drive(ctx.build_harness(), ["gencert", cert])
     events = []
